@@ -5,6 +5,7 @@ From HV Require Import Ord Select SelectFacts Hist HistFacts Pop PopFacts.
 From HV Require Import GenPop GenEquivPop.
 From HV Require Import RealTraces.
 From HV Require Import Ctor GenCtor GenEquivCtor.
+From HV Require GenDirection GenEquivDirection F64 WMonad.
 Import ListNotations.
 
 (* every stored individual (and every seed) names an evaluation in the log that was made for exactly its genome and returned
@@ -121,3 +122,10 @@ Proof.
   - destruct (LocalDeme_ctor_ok lvl started seed) as (_ & A & B). eauto.
 Qed.
 Print Assumptions C02_translated_ctor_population_evaluated.
+
+(* local-search iterates (LocalDeme._history_callback, translated): a COPY of the iterate is stored, and when scipy reports for it the value of
+   the function it was handed (contract X5, measured on every trace) the stored fitness is the objective's own value there, in both directions *)
+Theorem C02_translated_local_iterate {G} mx (f : G -> WMonad.F) (x : G) :
+  GenDirection.gen_local_recorded mx x (GenDirection.gen_local_objective mx f x) = (x, f x).
+Proof. exact (GenEquivDirection.local_iterate_recorded_with_its_own_fitness mx f x). Qed.
+Print Assumptions C02_translated_local_iterate.
